@@ -202,7 +202,13 @@ func c05r1(c *RC) {
 			}
 			t := strings.ReplaceAll(expr(a.Rhs[0]), " ", "")
 			i := expr(ix.Index)
-			if t == "int(frame.Hash("+i+")%uint32(nshard))" {
+			var pn []string
+			for _, f := range fn.Type.Params.List {
+				for _, nm := range f.Names {
+					pn = append(pn, nm.Name)
+				}
+			}
+			if len(pn) == 4 && t == "int("+pn[1]+".Hash("+i+")%uint32("+pn[2]+"))" && expr(ix.X) == pn[3] {
 				okForm = true
 			}
 			return true
@@ -425,8 +431,11 @@ func c05r3(c *RC) {
 			storesI, readsI := false, false
 			ast.Inspect(rng.Body, func(m ast.Node) bool {
 				if a, isA := m.(*ast.AssignStmt); isA && len(a.Lhs) == 1 {
-					if ix, isIx := a.Lhs[0].(*ast.IndexExpr); isIx && expr(ix.Index) == iv && strings.Contains(expr(a.Rhs[0]), "result[0]") {
-						storesI = true
+					if ix, isIx := a.Lhs[0].(*ast.IndexExpr); isIx && expr(ix.Index) == iv && expr(ix.X) == expr(rng.X) {
+						// the value stored is element 0 of the user function's result
+						if strings.Contains(expr(a.Rhs[0]), "[0]") && strings.Contains(expr(a.Rhs[0]), ".Int()") {
+							storesI = true
+						}
 					}
 				}
 				if call, isC := m.(*ast.CallExpr); isC && fn.Pkg.CalleeName(call) == "frame.Frame.Index" && len(call.Args) == 2 && expr(call.Args[1]) == iv {
@@ -445,7 +454,7 @@ func c05r3(c *RC) {
 	okN := false
 	if lit != nil {
 		ast.Inspect(lit.Body, func(n ast.Node) bool {
-			if a, isA := n.(*ast.AssignStmt); isA && len(a.Lhs) == 1 && strings.HasSuffix(expr(a.Lhs[0]), "[0]") && expr(a.Rhs[0]) == "reflect.ValueOf(nshard)" {
+			if a, isA := n.(*ast.AssignStmt); isA && len(a.Lhs) == 1 && strings.HasSuffix(expr(a.Lhs[0]), "[0]") && len(lit.Type.Params.List) >= 3 && len(lit.Type.Params.List[2].Names) == 1 && expr(a.Rhs[0]) == "reflect.ValueOf("+lit.Type.Params.List[2].Names[0].Name+")" {
 				okN = true
 			}
 			return true
@@ -464,17 +473,24 @@ func c05r4(c *RC) {
 	// tasks = make([]*Task, E)
 	sizeExpr := ""
 	var depPart *ast.CompositeLit
+	// the task list is the function's first (named) result
+	tasksVar := "tasks"
+	if fn.Type.Results != nil && len(fn.Type.Results.List) > 0 && len(fn.Type.Results.List[0].Names) > 0 {
+		tasksVar = fn.Type.Results.List[0].Names[0].Name
+	}
 	inspectNoLit(fn.Body, func(n ast.Node) bool {
 		switch a := n.(type) {
 		case *ast.AssignStmt:
-			if len(a.Lhs) == 1 && len(a.Rhs) == 1 && expr(a.Lhs[0]) == "tasks" {
+			if len(a.Lhs) == 1 && len(a.Rhs) == 1 && expr(a.Lhs[0]) == tasksVar {
 				if call, ok := a.Rhs[0].(*ast.CallExpr); ok && expr(call.Fun) == "make" && len(call.Args) == 2 && strings.Contains(expr(call.Args[1]), "NumShard") {
 					sizeExpr = expr(call.Args[1])
 				}
 			}
-			if len(a.Lhs) == 1 && len(a.Rhs) == 1 && expr(a.Lhs[0]) == "depPart" {
-				if l, ok := a.Rhs[0].(*ast.CompositeLit); ok {
-					depPart = l
+			if len(a.Lhs) == 1 && len(a.Rhs) == 1 {
+				if l, ok := a.Rhs[0].(*ast.CompositeLit); ok && len(l.Elts) > 0 {
+					if tv := fn.Pkg.Info.Types[l]; tv.Type != nil && typeString(tv.Type) == "exec.partitioner" {
+						depPart = l
+					}
 				}
 			}
 		}
@@ -495,14 +511,26 @@ func c05r4(c *RC) {
 	}
 	c.Check(fields["numPartition"] == sizeExpr, fq+"|producer-partitions=consumer-shards", pr.Pos(depPart.Pos()),
 		fmt.Sprintf("the producer is compiled with %s partitions but the consumer has %s tasks: some partitions are never read or some consumers read nothing", fields["numPartition"], sizeExpr))
-	c.Check(fields["partitioner"] == "dep.Partitioner", fq+"|producer-uses-dep-partitioner", pr.Pos(depPart.Pos()), "the producer is not compiled with the dependency's partitioner: "+fields["partitioner"])
-	c.Check(strings.HasSuffix(fields["Combiner"], ".Combiner()") && fields["CombineKey"] == "combineKey", fq+"|producer-combiner", pr.Pos(depPart.Pos()), "the producer's combiner/combine key are not those of the consuming slice")
+	okDepPart := false
+	if depPart != nil {
+		ast.Inspect(depPart, func(n ast.Node) bool {
+			if sel, ok := n.(*ast.SelectorExpr); ok && sel.Sel.Name == "Partitioner" {
+				if tv := fn.Pkg.Info.Types[sel.X]; tv.Type != nil && (typeString(tv.Type) == "Dep" || typeString(tv.Type) == ".Dep") && expr(sel) == fields["partitioner"] {
+					okDepPart = true
+				}
+			}
+			return true
+		})
+	}
+	c.Check(okDepPart, fq+"|producer-uses-dep-partitioner", pr.Pos(depPart.Pos()), "the producer is not compiled with the dependency's partitioner: "+fields["partitioner"])
+	combineKeyVar := fields["CombineKey"]
+	c.Check(strings.HasSuffix(fields["Combiner"], ".Combiner()") && combineKeyVar != "" && combineKeyVar != `""`, fq+"|producer-combiner", pr.Pos(depPart.Pos()), "the producer's combiner/combine key are not those of the consuming slice")
 	// TaskDep literals
 	tdst, _ := pr.lookupType("exec", "TaskDep").Underlying().(*types.Struct)
 	nshuffle, nnarrow := 0, 0
 	ast.Inspect(fn.Body, func(n ast.Node) bool {
 		rng, ok := n.(*ast.RangeStmt)
-		if !ok || expr(rng.X) != "tasks" {
+		if !ok || expr(rng.X) != tasksVar {
 			return true
 		}
 		iv := expr(rng.Key)
@@ -532,14 +560,35 @@ func c05r4(c *RC) {
 					f[tdst.Field(i).Name()] = expr(e)
 				}
 			}
-			okTarget := target == "tasks["+iv+"].Deps"
-			if f["Head"] == "depTasks[0]" {
+			okTarget := target == tasksVar+"["+iv+"].Deps"
+			// the head is <depTasks>[0] for a shuffle, <depTasks>[<loop var>] otherwise,
+			// where <depTasks> is a variable assigned from the recursive compile call
+			headIdx := ""
+			if hx, ok := func() (*ast.IndexExpr, bool) {
+				for _, e := range lit.Elts {
+					v := e
+					if kv, ok := e.(*ast.KeyValueExpr); ok {
+						if expr(kv.Key) != "Head" {
+							continue
+						}
+						v = kv.Value
+					}
+					if ix, ok := v.(*ast.IndexExpr); ok {
+						return ix, true
+					}
+					break
+				}
+				return nil, false
+			}(); ok {
+				headIdx = expr(hx.Index)
+			}
+			if headIdx == "0" {
 				nshuffle++
-				c.Check(okTarget && f["Partition"] == iv && f["CombineKey"] == "combineKey", fq+"|shuffle-dep:consumer-p-reads-partition-p", pr.Pos(lit.Pos()),
+				c.Check(okTarget && f["Partition"] == iv && f["CombineKey"] == combineKeyVar, fq+"|shuffle-dep:consumer-p-reads-partition-p", pr.Pos(lit.Pos()),
 					fmt.Sprintf("the shuffle dependency appended to %s has Partition=%s (loop variable %s): consumer shard p must read partition p of the producer's head task", target, f["Partition"], iv))
 			} else {
 				nnarrow++
-				c.Check(okTarget && f["Head"] == "depTasks["+iv+"]" && f["Partition"] == "0" && (f["CombineKey"] == `""` || f["CombineKey"] == ""), fq+"|narrow-dep:shard-i-reads-shard-i", pr.Pos(lit.Pos()),
+				c.Check(okTarget && headIdx == iv && f["Partition"] == "0" && (f["CombineKey"] == `""` || f["CombineKey"] == ""), fq+"|narrow-dep:shard-i-reads-shard-i", pr.Pos(lit.Pos()),
 					fmt.Sprintf("the pipelined dependency appended to %s is {Head:%s Partition:%s}: shard i must read partition 0 of shard i", target, f["Head"], f["Partition"]))
 			}
 			return true
@@ -562,7 +611,7 @@ func c05r4(c *RC) {
 		ast.Inspect(lit.Body, func(n ast.Node) bool {
 			if ifs, ok := n.(*ast.IfStmt); ok && strings.Contains(expr(ifs.Cond), "IsShuffle()") && !strings.Contains(expr(ifs.Cond), "!") {
 				ast.Inspect(ifs.Body, func(m ast.Node) bool {
-					if a, ok := m.(*ast.AssignStmt); ok && len(a.Lhs) == 1 && strings.HasSuffix(expr(a.Lhs[0]), ".Group") && expr(a.Rhs[0]) == "tasks" {
+					if a, ok := m.(*ast.AssignStmt); ok && len(a.Lhs) == 1 && strings.HasSuffix(expr(a.Lhs[0]), ".Group") && expr(a.Rhs[0]) == tasksVar {
 						grp = true
 					}
 					return true
@@ -722,6 +771,7 @@ func c05r6(c *RC) {
 		if err != nil {
 			return "", err
 		}
+		alphaNormalise(f)
 		var o bytes.Buffer
 		if err := format.Node(&o, fs, f); err != nil {
 			return "", err
@@ -750,4 +800,113 @@ func c05r6(c *RC) {
 	c.Check(w == g, "frame/ops_builtin.go|equals-generator-output", "frame/ops_builtin.go",
 		"the checked-in kernels differ from the template instantiated for the generator's type list ("+diffLine+"): one width's hash or comparison was edited by hand, so that key type is placed differently from what the generator (and other builds) produce")
 	c.Note("generator types: %s", strings.Join(typesList, ","))
+}
+
+// alphaNormalise renames, in every function declaration and literal of f, the
+// parameters, results and locally declared variables to canonical names in
+// order of declaration, so that two files that differ only in the spelling of
+// local names print identically.  (Purely syntactic: the file is a generated
+// kernel file without shadowing subtleties.)
+func alphaNormalise(f *ast.File) {
+	var doFunc func(typ *ast.FuncType, body *ast.BlockStmt, depth int)
+	doFunc = func(typ *ast.FuncType, body *ast.BlockStmt, depth int) {
+		names := map[string]string{}
+		k := 0
+		decl := func(id *ast.Ident) {
+			if id == nil || id.Name == "_" {
+				return
+			}
+			if _, ok := names[id.Name]; !ok {
+				names[id.Name] = fmt.Sprintf("v%d_%d", depth, k)
+				k++
+			}
+		}
+		for _, fl := range []*ast.FieldList{typ.Params, typ.Results} {
+			if fl == nil {
+				continue
+			}
+			for _, p := range fl.List {
+				for _, n := range p.Names {
+					decl(n)
+				}
+			}
+		}
+		if body == nil {
+			return
+		}
+		ast.Inspect(body, func(n ast.Node) bool {
+			switch x := n.(type) {
+			case *ast.FuncLit:
+				return false
+			case *ast.AssignStmt:
+				if x.Tok == token.DEFINE {
+					for _, l := range x.Lhs {
+						if id, ok := l.(*ast.Ident); ok {
+							decl(id)
+						}
+					}
+				}
+			case *ast.ValueSpec:
+				for _, id := range x.Names {
+					decl(id)
+				}
+			case *ast.RangeStmt:
+				if x.Tok == token.DEFINE {
+					if id, ok := x.Key.(*ast.Ident); ok {
+						decl(id)
+					}
+					if id, ok := x.Value.(*ast.Ident); ok {
+						decl(id)
+					}
+				}
+			}
+			return true
+		})
+		var rename func(n ast.Node)
+		rename = func(n ast.Node) {
+			ast.Inspect(n, func(m ast.Node) bool {
+				switch x := m.(type) {
+				case *ast.FuncLit:
+					// inner literal: rename outer names inside it first, then its own
+					rename(x.Body)
+					renameFields(x.Type, names)
+					doFunc(x.Type, x.Body, depth+1)
+					return false
+				case *ast.SelectorExpr:
+					rename(x.X)
+					return false
+				case *ast.KeyValueExpr:
+					rename(x.Value)
+					return false
+				case *ast.Ident:
+					if nn, ok := names[x.Name]; ok {
+						x.Name = nn
+					}
+				}
+				return true
+			})
+		}
+		renameFields(typ, names)
+		rename(body)
+	}
+	for _, d := range f.Decls {
+		if fd, ok := d.(*ast.FuncDecl); ok {
+			doFunc(fd.Type, fd.Body, 0)
+		}
+	}
+}
+
+func renameFields(typ *ast.FuncType, names map[string]string) {
+	for _, fl := range []*ast.FieldList{typ.Params, typ.Results} {
+		if fl == nil {
+			continue
+		}
+		for _, p := range fl.List {
+			for _, n := range p.Names {
+				if nn, ok := names[n.Name]; ok {
+					n.Name = nn
+				}
+			}
+		}
+	}
 }
